@@ -1081,12 +1081,16 @@ class Server:
     Service = NewType('Service', list[ServiceAttribute])
     service_records: dict[int, Service]
     current_response: None | bytes | tuple[int, list[int]]
+    current_responses: dict[
+        l2cap.ClassicChannel, None | bytes | tuple[int, list[int]]
+    ]  # Continuation state of each client
 
     def __init__(self, device: Device) -> None:
         self.device = device
         self.service_records = {}  # Service records maps, by record handle
         self.channel = None
         self.current_response = None  # Current response data, used for continuations
+        self.current_responses = {}
 
     def register(self, l2cap_channel_manager: l2cap.ChannelManager) -> None:
         l2cap_channel_manager.create_classic_server(
@@ -1116,7 +1120,19 @@ class Server:
 
     def on_connection(self, channel):
         self.channel = channel
-        self.channel.sink = self.on_pdu
+        channel.sink = lambda pdu: self.on_channel_pdu(channel, pdu)
+        if hasattr(channel, 'once'):
+            channel.once('close', lambda: self.current_responses.pop(channel, None))
+
+    def on_channel_pdu(self, channel, pdu):
+        # Requests are processed one at a time: answer on the channel the request
+        # came from, with the continuation state of that client.
+        self.channel = channel
+        self.current_response = self.current_responses.get(channel)
+        try:
+            self.on_pdu(pdu)
+        finally:
+            self.current_responses[channel] = self.current_response
 
     def on_pdu(self, pdu):
         try:
@@ -1128,6 +1144,7 @@ class Server:
                     transaction_id=0, error_code=ErrorCode.INVALID_REQUEST_SYNTAX
                 )
             )
+            return
 
         logger.debug(f'{color("<<< Received SDP Request", "green")}: {sdp_pdu}')
 
